@@ -1074,7 +1074,7 @@ def probes_run(ctx):
 
 @prop('C04')
 def c04(ctx):
-    rule = ('(1) 46 API-misuse probes (nil/ill-typed Bind, SetCallback, Run, Condense, Curry, SaveTo, MakeStructBuilder arguments, nil entries, '
+    rule = ('(1) API-misuse probes (nil/ill-typed Bind, SetCallback, Run, Condense, Curry, SaveTo, MakeStructBuilder arguments, nil entries, '
             'wrapper/literal last, func pointers, anonymous func parameters, conflicting annotations, variadics, channels/maps) each under '
             'recover + watchdog; (2) malformed chains from a perturbing generator (unsatisfiable inputs, unconsumed returns, wrapper/literal '
             'last, Reorder/Cluster/ConsumptionOptional/named-edit mixes): Bind must return (error or ok), never panic/hang, and on error leave '
